@@ -1,12 +1,16 @@
 import Driver.Sexp
 import Pcore.Model.Files
 import Pcore.Model.FilesFuel
+import Pcore.Model.FilesCtor
 /-!
 Driver ops for C15 (syntax in harness/c15/c15.go):
 
   tree <mods> <files> <via> <lookups>    materialised tree + lookup sequence → one item per lookup, then the read counts
   tn <mod> (xSEG …)                      smartPath.TypedNames of a relative path (`mod` = x for the global loader)
   ep <mod> xNAME                         smartPath.EffectivePath of a name
+  ctor <mod> (xPATHTYPE …)               newFileBasedLoader with these path types over types/probe.pp + types/Q/probe.pp
+                                         (Q = mod, `nomod` for the empty name): `reported <CODE> - 0`, or `ok` and HasEntry
+                                         of Probe, Q::Probe, Q::Q::Probe through the smart paths the CONSTRUCTOR built
 
 The file list is sorted into `filepath.Walk` order (segment-wise, bytewise) before it reaches the model.
 -/
@@ -179,6 +183,21 @@ def execTree (modsE filesE viaE lookupsE : Sexp) : String :=
     | _, _ => "bad-op"
   | _, _, _, _ => "bad-op"
 
+def capSeg (s : String) : String :=
+  match s.toList with
+  | [] => s
+  | c :: cs => String.ofList (c.toUpper :: cs)
+
+def execCtor (mod : String) (pts : List String) : String :=
+  let q := if mod = "" then "nomod" else mod
+  match newLoaderPaths ["r"] mod pts with
+  | .error e => errStr e
+  | .ok sps =>
+    let keys := sps.flatMap fun sp => fileKeys sp ["r", "types", "probe.pp"] ++ fileKeys sp ["r", "types", q, "probe.pp"]
+    let has := fun (n : Name) => staticHas (keyOf n) || keys.contains (keyOf n)
+    let cq := capSeg q
+    s!"ok {boolStr (has ["Probe"])} {boolStr (has [cq, "Probe"])} {boolStr (has [cq, cq, "Probe"])}"
+
 def spFor (mod : String) : SmartPath := if mod = "" then spOf .g else spOf (.m mod)
 
 def exec : List Sexp → String
@@ -192,6 +211,10 @@ def exec : List Sexp → String
               | none => false) then
         " ".intercalate ((typedNames (spFor mod) rel).map fun n => hexOfString (joinName n))
       else "bad-tree"
+    | _, _ => "bad-op"
+  | [.atom "ctor", m, pts] =>
+    match m.str?, strs? pts with
+    | some mod, some ps => if mod = "" || modName mod then execCtor mod ps else "bad-tree"
     | _, _ => "bad-op"
   | [.atom "ep", m, n] =>
     match m.str?, n.str? with
